@@ -3,9 +3,11 @@ package c17
 
 import (
 	"bytes"
+	"encoding/hex"
 	"encoding/json"
 	"encoding/xml"
 	"fmt"
+	"github.com/twpayne/go-geom/sorting"
 	"math"
 	"os"
 	"path/filepath"
@@ -125,6 +127,7 @@ var inventory = []string{
 	"xyz.Distances", "bigxy.Orientation", "bigxy.Intersection", "transform.UniqueCoords",
 	"wkb.Marshal", "ewkb.Marshal", "wkbhex.Encode", "ewkbhex.Encode", "wkt.Marshal", "wkt.MarshalDigits", "geojson.Marshal", "geojson.MarshalBBox", "geojson.Feature", "igc.Encode", "kml.Encode",
 	"wkb.Unmarshal", "ewkb.Unmarshal", "ewkb.Scan", "wkt.Unmarshal", "geojson.Unmarshal", "igc.Read",
+	"xy.Misc", "xy.CentroidsWithExtras", "wkb.WriteRead", "hex.Decode", "geojson.FeatureCollection",
 	"geojson.MarshalSharedOpts", "geojson.MarshalSharedOpts", "wkt.MarshalSharedOpts", "wkb.UnmarshalSharedOpts", "geojson.MarshalSharedSlice", "geojson.MarshalSharedSlice",
 }
 
@@ -427,6 +430,89 @@ func execInner(pool []*item, c Call, geomRes func(geom.T, error) string, bytesRe
 			}
 			return fl(xyz.Distance(p0, q0)) + fl(xyz.DistancePointToLine(q0, p0, p1)) + fl(xyz.DistanceLineToLine(p0, p1, q0, q1)) + fl(xyz.VectorDot(p0, p1, q0, q1)) + fl(xyz.VectorLength(p0))
 		}
+	case "xy.Misc":
+		if a.flat == nil || b.flat == nil || len(a.flat) < 2*stride || len(b.flat) < 2*b.t.Stride() || stride < 2 || b.t.Stride() < 2 {
+			return "n/a"
+		}
+		p0, p1 := coordsAt(a.flat, stride, c.B), coordsAt(a.flat, stride, c.B+1)
+		q0 := coordsAt(b.flat, b.t.Stride(), c.A)
+		out := fmt.Sprint(xy.Equal(a.flat, 0, b.flat, 0), xy.Equal(a.flat, stride, a.flat, stride), sorting.IsLess2D(p0, q0), p0.Equal(geom.XY, q0), fls(p0.Clone()))
+		if !(p0[0] == p1[0] && p0[1] == p1[1]) {
+			out += fl(xy.PerpendicularDistanceFromPointToLine(q0, p0, p1))
+		}
+		if stride >= 3 && b.t.Stride() >= 3 {
+			out += fmt.Sprint(xyz.Equals(p0, q0)) + fls(xyz.VectorNormalize(p1))
+		}
+		return out
+	case "xy.CentroidsWithExtras":
+		// the per-kind entry points with an extra argument (the same object twice)
+		switch r := t.(type) {
+		case *geom.Point:
+			if a.g.C0 == nil {
+				return "n/a"
+			}
+			return fls(xy.PointsCentroid(r, r)) + fls(xy.PointsCentroidFlat(r.Layout(), r.FlatCoords()))
+		case *geom.MultiPoint:
+			if a.g.Empty() || a.g.HasEmptyPart() {
+				return "n/a"
+			}
+			return fls(xy.MultiPointCentroid(r)) + fls(xy.PointsCentroidFlat(r.Layout(), r.FlatCoords()))
+		case *geom.LineString:
+			if a.g.Layout == 5 || !(r.Length() > 0) {
+				return "n/a"
+			}
+			return fls(xy.LinesCentroid(r, r))
+		case *geom.MultiLineString:
+			if a.g.HasEmptyPart() || !(r.Length() > 0) {
+				return "n/a"
+			}
+			return fls(xy.MultiLineCentroid(r))
+		case *geom.Polygon:
+			if a.g.Empty() || a.g.HasEmptyPart() {
+				return "n/a"
+			}
+			return fls(xy.PolygonsCentroid(r, r)) + fls(xy.LinearRingsCentroid(r.LinearRing(0), r.LinearRing(0)))
+		case *geom.MultiPolygon:
+			if a.g.Empty() || a.g.HasEmptyPart() {
+				return "n/a"
+			}
+			return fls(xy.MultiPolygonCentroid(r))
+		}
+		return "n/a"
+	case "wkb.WriteRead":
+		if a.wkb == nil {
+			return "n/a"
+		}
+		var buf bytes.Buffer
+		if err := wkb.Write(&buf, wkb.XDR, t, sharedWKBNaN); err != nil {
+			return "err:" + err.Error()
+		}
+		out := fmt.Sprintf("%x", buf.Bytes())
+		return out + canonGeom(wkb.Read(bytes.NewReader(a.wkb), sharedWKBNaN))
+	case "hex.Decode":
+		if a.wkb == nil || a.ewkb == nil {
+			return "n/a"
+		}
+		g1, err1 := wkbhex.Decode(hex.EncodeToString(a.wkb), sharedWKBNaN)
+		return canonGeom(g1, err1) + canonGeom(ewkbhex.Decode(strings.ToUpper(hex.EncodeToString(a.ewkb))))
+	case "geojson.FeatureCollection":
+		if a.g.Layout == 5 || b.g.Layout == 5 {
+			return "n/a"
+		}
+		fc := &geojson.FeatureCollection{Features: []*geojson.Feature{{ID: "a", Geometry: t}, {ID: "b", Geometry: b.t, Properties: map[string]interface{}{"n": 1.0}}, {ID: "null"}}}
+		bts, err := json.Marshal(fc)
+		if err != nil {
+			return "err:" + err.Error()
+		}
+		var back geojson.FeatureCollection
+		if err := json.Unmarshal(bts, &back); err != nil {
+			return string(bts) + " err:" + err.Error()
+		}
+		out := string(bts)
+		for _, f := range back.Features {
+			out += "|" + canonGeom(f.Geometry, nil)
+		}
+		return out
 	case "xy.PointInRing", "xy.RingCCW", "xy.SignedArea":
 		// needs a closed ring of at least 4 coordinates: take the first ring of a polygon
 		var ring []float64
